@@ -8,6 +8,7 @@ import SocVerif.Driver.SramD
 import SocVerif.Driver.ArbD
 import SocVerif.Driver.BridgeD
 import SocVerif.Driver.BuilderD
+import SocVerif.Driver.DecD
 
 def main (args : List String) : IO UInt32 := do
   match args with
@@ -22,4 +23,6 @@ def main (args : List String) : IO UInt32 := do
   | ["arbiter"] => ArbD.main; return 0
   | ["bridge"] => BridgeD.main; return 0
   | ["builder"] => BuilderD.main; return 0
+  | ["csrdec"] => DecD.mainCsr; return 0
+  | ["wbdec"] => DecD.mainWb; return 0
   | _ => IO.eprintln "usage: driver <mux|mmap|...>"; return 2
